@@ -30,7 +30,7 @@ func init() {
 			"registrations happen only while caching is enabled and a registered-only name is not rendered with the cache off",
 			"loader mtimes are logical counters set by the harness (os.Chtimes for files), never the wall clock",
 		},
-		quick: 20000, thorough: 400000, minQuick: 8000, minThorough: 150000,
+		quick: 50000, thorough: 400000, minQuick: 8000, minThorough: 150000,
 	}})
 }
 
@@ -303,8 +303,10 @@ func (p *c15) Run(rec *core.Recorder, seed uint64, idx int, tier string) {
 				allowed = append(allowed, outcome{ent.version, ent.loader})
 				addLoader(fw)
 			case !has:
-				allowed = append(allowed, outcome{ent.version, ent.loader})
+				// the template is gone from the timestamp-aware loader it was cached from: that is a change of the template,
+				// so the next call sees the loaders as they are now (another loader's copy, or not found)
 				addLoader(fw)
+				rec.Count("autoreload-removed-checks", 1)
 			case cur.mtime > ent.mtime:
 				// must see a current loader version, never the stale cached one
 				addLoader(fw)
